@@ -8,6 +8,8 @@ package main
 
 import (
 	"encoding/json"
+	"math"
+	"strconv"
 	"unsafe"
 
 	"github.com/creachadair/mds/slice"
@@ -35,8 +37,20 @@ func offOf(base, sub []int) int {
 	return int((uintptr(p) - uintptr(b)) / unsafe.Sizeof(int(0)))
 }
 
+// clampK maps an int64 argument into what TLC's 32-bit integers can hold; any
+// magnitude beyond 2^30 is "far out of range" for every slice in these runs.
+func clampK(k int) int {
+	const lim = 1 << 30
+	if k > lim {
+		return lim
+	} else if k < -lim {
+		return -lim
+	}
+	return k
+}
+
 func c17rec(f string, vs []int, spare, k int, keep []int, vss [][]int) Ev {
-	ev := Ev{"op": "new", "f": f, "vs": ints(vs), "spare": spare, "k": k, "keep": ints(keep), "vss": [][]int{}, "panicked": false,
+	ev := Ev{"op": "new", "f": f, "vs": ints(vs), "spare": spare, "k": clampK(k), "kx": strconv.Itoa(k), "keep": ints(keep), "vss": [][]int{}, "panicked": false,
 		"r": map[string]any{"out": []int{}, "off": -1, "len": 0, "cap": 0, "v": 0, "nil": false}, "parts": []any{}, "concat": []int{}, "after": []int{}, "guard": true}
 	if vss != nil {
 		ev["vss"] = vss
@@ -124,7 +138,11 @@ func replayC17(c *Ctx, h *Hist, ops []Op) {
 			}
 			vss = append(vss, v)
 		}
-		h.Emit(c17rec(gets(op, "f"), getis(op, "vs"), geti(op, "spare"), geti(op, "k"), getis(op, "keep"), vss))
+		k := geti(op, "k")
+		if kx, err := strconv.Atoi(gets(op, "kx")); err == nil {
+			k = kx // the exact (possibly 64-bit) argument
+		}
+		h.Emit(c17rec(gets(op, "f"), getis(op, "vs"), geti(op, "spare"), k, getis(op, "keep"), vss))
 	}
 }
 
@@ -154,6 +172,34 @@ func runC17(c *Ctx) {
 		for k := 0; k <= 2; k++ {
 			c.NewHist("nil-input").Emit(c17rec(f, nil, 0, k, nil, nil))
 		}
+	}
+	// arguments of extreme magnitude (integer-width corners)
+	extremes := []int{math.MinInt, math.MinInt + 1, math.MaxInt, math.MaxInt - 1, 1 << 32, -(1 << 32), 1<<32 + 1, 1 << 31, -(1 << 31), 1<<31 - 1, 1 << 16, 1<<16 + 1}
+	for _, f := range []string{"rotate", "chunks", "batches", "head", "tail", "at", "ptrat"} {
+		for _, ln := range []int{0, 1, 5} {
+			for _, k := range extremes {
+				if (f == "head" || f == "tail") && k < 0 {
+					continue // negative counts are outside the documentation
+				}
+				c.NewHist("extreme-arg").Emit(c17rec(f, iota(ln), 0, k, nil, nil))
+			}
+		}
+	}
+	// Rotate with consecutive Fibonacci numbers: the deepest recursion of the
+	// gcd computation for their size, all cycle lengths exercised
+	fa, fb := 1, 2
+	for fb < c.Pick(5000, 30000) {
+		if fb >= 13 {
+			for _, k := range []int{fa, -fa, fb - fa, -(fb - fa)} {
+				c.NewHist("fibonacci-rotate").Emit(c17rec("rotate", iota(fb), 0, k, nil, nil))
+			}
+		}
+		fa, fb = fb, fa+fb
+	}
+	// larger power-of-two / composite sizes with shared factors
+	for _, nk := range [][2]int{{1024, 512}, {1024, 768}, {1000, 375}, {2310, 1155}, {4096, 4095}, {3003, 1001}} {
+		c.NewHist("big-rotate").Emit(c17rec("rotate", iota(nk[0]), 0, nk[1], nil, nil))
+		c.NewHist("big-rotate").Emit(c17rec("rotate", iota(nk[0]), 0, -nk[1], nil, nil))
 	}
 	n := c.Pick(3000, 100000)
 	for i := 0; i < n; i++ {
